@@ -22,7 +22,8 @@ RULE = (
     "segments committed via compile() contain >=1 rotation whose numerator is a Template (values 0..255 per name); also "
     "compile-now / other operations and flushes / commit-later histories compared with the same operations flushed in commit order; compiler "
     "in {none, NV transpiler}; 0..3 further statements+flushes after a precompiled commit; blocks with two template names, where an "
-    "instantiate() naming only the first (with another value) must fail without touching the block before the complete call.  Non-trivial = a template value "
+    "instantiate() naming only the first (with another value) must fail without touching the block before the complete call; one block "
+    "(template rotations, `d` given or left out) written/compiled/filled/committed 2..4 times on one connection with other values each time.  Non-trivial = a template value "
     "changes the trace (n mod 2^(d+1) != 0) and >=1 later flush follows a precompiled commit; distinct by (AST, valuation)"
 )
 ASSUMPTIONS = [
@@ -57,7 +58,7 @@ def st_case(draw, tier="quick"):
                 name = f"t{n_t}"
                 n_t += 1
                 values[name] = draw(st.integers(0, 255))
-                d = draw(st.integers(0, 5))
+                d = draw(st.sampled_from([None, 0, 1, 2, 3, 4, 5]))  # None = the `d` argument is left out
                 qid = 1000 + n_t
                 second = []
                 if draw(st.booleans()):
@@ -225,7 +226,7 @@ class Recorder:
                     from netqasm.sdk.qubit import Qubit  # noqa
 
                     n = Template(s[3]["template"]) if rec.flow == "A" else rec.values[s[3]["template"]]
-                    getattr(self.qubits[s[2]], "rot_" + s[1])(n=n, d=s[4])
+                    getattr(self.qubits[s[2]], "rot_" + s[1])(n=n, **({} if s[4] is None else {"d": s[4]}))
                     return
                 if s[0] == "pcompile":
                     rec.held = self.conn.compile()
@@ -340,7 +341,7 @@ def _trace_sensitive(case) -> bool:
     for s in case["stmts"]:
         if s[0] == "rot" and isinstance(s[3], dict):
             v = case["values"][s[3]["template"]]
-            if v % (2 ** (s[4] + 1)) != 0:
+            if v % (2 ** ((s[4] or 0) + 1)) != 0:
                 return True
     return False
 
@@ -381,9 +382,69 @@ def shard(ctx: Ctx) -> None:
 
     ctx.search(st_delayed(), body_delayed, n // 2, name="c06-delayed", salt=3)
 
+    def body_repeat(case):
+        check_repeat(case)
+        distinct = len({tuple(sorted(r.items())) for r in case["rounds"]}) >= 2
+        stt.case([case["block"], case["rounds"], case["nv"], case["plain_between"]], distinct, ["repeat", "nv" if case["nv"] else "vanilla", f"rounds:{len(case['rounds'])}"], sample=case)
+
+    ctx.search(st_repeat(), body_repeat, n // 2, name="c06-repeat", salt=4)
+
+
+# ------------------------------------------------------------------ the same block compiled several times
+
+
+@st.composite
+def st_repeat(draw):
+    """one block of operations (rotations with template operands on a qubit that stays alive, optionally a measurement into a
+    register) is written, compiled, filled and committed several times on one connection, each time with other values"""
+    n_rot = draw(st.integers(1, 3))
+    block = [[draw(st.sampled_from("XYZ")), draw(st.sampled_from(["t", "t", "u"])), draw(st.sampled_from([None, 0, 1, 2, 3, 4]))] for _ in range(n_rot)]
+    rounds = [{"t": draw(st.integers(0, 31)), "u": draw(st.integers(0, 31))} for _ in range(draw(st.integers(2, 4)))]
+    return {"repeat": True, "block": block, "rounds": rounds, "nv": draw(st.integers(0, 2)) == 0, "plain_between": draw(st.booleans()), "outcomes": [], "values": {}}
+
+
+def check_repeat(case) -> Dict[str, Any]:
+    from netqasm.lang.operand import Template
+    from netqasm.sdk.qubit import Qubit
+
+    traces = {}
+    for flow in ("A", "B"):
+        rec = Recorder(case, flow)
+        conn, ex = rec.conn, rec.ex
+        try:
+            q = Qubit(conn)
+            conn.flush()
+            start = len(ex.events)
+            for vals in case["rounds"]:
+                for axis, name, d in case["block"]:
+                    n = Template(name) if flow == "A" else vals[name]
+                    getattr(q, "rot_" + axis)(n=n, **({} if d is None else {"d": d}))
+                if flow == "A":
+                    sub = conn.compile()
+                    sub.instantiate(conn.app_id, dict(vals))
+                    conn.commit_subroutine(sub)
+                else:
+                    conn.flush()
+                if case["plain_between"]:
+                    q.H()
+                    conn.flush()
+            q.measure()
+            conn.flush()
+        except Exception as e:
+            raise Failure(f"repeat:raises:{flow}", case, f"flow {flow}: {type(e).__name__}: {(str(e).splitlines() or [''])[0][:160]}")
+        traces[flow] = [tuple(e) for e in ex.events[start:]]
+    if traces["A"] != traces["B"]:
+        k = next((i for i, (a, b) in enumerate(zip(traces["A"], traces["B"])) if a != b), min(len(traces["A"]), len(traces["B"])))
+        raise Failure("repeat:trace", case, f"the block compiled/instantiated/committed {len(case['rounds'])} times differs from flushing it with the same values at event {k}: "
+                      f"{traces['A'][k:k + 3]} vs {traces['B'][k:k + 3]}")
+    return {"rounds": len(case["rounds"])}
+
 
 def replay(case):
     try:
+        if case.get("repeat"):
+            check_repeat(case)
+            return None
         check(case)
     except hp.OutOfDomainProgram:
         return None
